@@ -248,6 +248,65 @@ def stepC16 (st : St) (pre post : List String) : Verdict :=
       else .ok
   | _, _ => .bad "c16 op"
 
+/-- `he:hd:c:r` -/
+def splitPair (s : String) : Option (Int × Int × String × String) :=
+  match s.splitOn ":" with
+  | [a, b, c, r] => match a.toInt?, b.toInt? with
+    | some x, some y => some (x, y, c, r)
+    | _, _ => none
+  | _ => none
+
+/-- Cross-height lines (`harness/cmd/c38/xheight.go`): encode at `he`, decode at `hd ≥ he`.  The two
+codecs are abstracted to "which codec wrote the bytes": amino reads amino bytes, proto reads proto
+bytes (`b`: both wrote the same bytes); everything else is `Wire.marshalAt` / `Wire.unmarshalAt`. -/
+def stepXh (st : St) (pre post : List String) : Verdict :=
+  match pre, post with
+  | ["xh", cfgName, u, name, full, kind, vx], vy :: vz :: pairs =>
+    match lookupSchema st full, u.toInt? with
+    | some s, some U =>
+      match Text.parseMsg st.reg s vx with
+      | none => .bad s!"cannot parse value of {full}"
+      | some X =>
+        let want := normFields s X
+        let sig := s!"roundtrip-changed-{name}-switch"
+        let okV (v : String) : Bool := match Text.parseMsg st.reg s v with
+          | some Y => eqVals (normFields s Y) want
+          | none => false
+        if isErr vy || !okV vy then .propfail s!"roundtrip-changed-{name}" s!"proto ({kind}): in={short vx} out={short vy}"
+        else if isErr vz || !okV vz then .propfail s!"roundtrip-changed-{name}-amino" s!"amino ({kind}): in={short vx} out={short vz}"
+        else
+          let cfg : SwitchCfg := { upgradeHeight := U, testMode := cfgName = "testmode" }
+          -- where the unchanged code guarantees that a value written at `he` is read back at `hd`
+          let guaranteed := cfgName = "main" || cfgName = "testmode"
+          let enc (tag : String) : Unit → Option Bytes := fun _ => some tag.toUTF8.toList
+          let aDec (b : Bytes) : Option Unit := if b = "a".toUTF8.toList || b = "b".toUTF8.toList then some () else none
+          let pDec (b : Bytes) : Option Unit := if b = "p".toUTF8.toList || b = "b".toUTF8.toList then some () else none
+          pairs.foldl (fun acc p =>
+            match acc with
+            | .ok =>
+              match splitPair p with
+              | none => .bad s!"pair {p}"
+              | some (he, hd, c, r) =>
+                let wantTag := if isAfterCodecUpgrade cfg he then "p" else "a"
+                if c = "E" || c = "?" || c = "PANIC" then .propfail sig s!"{cfgName}/{kind}: Marshal at height {he} failed ({c}): {short vx}"
+                else if c != "b" && c != wantTag then .diff s!"{cfgName}/{kind}: height {he}: model writes {wantTag}, impl wrote {c}"
+                else
+                  let written := (marshalAt cfg (enc "a") (enc "p") he ()).map fun _ => c.toUTF8.toList
+                  let expectOk := match written with
+                    | some b => (unmarshalAt cfg aDec pDec hd b).isSome
+                    | none => false
+                  let implOk := r = "y" || r = "z"
+                  if expectOk && !implOk then
+                    if guaranteed then
+                      .propfail sig s!"{cfgName}/{kind}: written at height {he} ({c}), not read back at height {hd} ({r}): {short vx}"
+                    else .diff s!"{cfgName}/{kind}: {he}->{hd}: model reads the value back, impl={r}"
+                  else if !expectOk && implOk then
+                    .diff s!"{cfgName}/{kind}: {he}->{hd}: model cannot read {c} bytes at {hd}, impl did"
+                  else .ok
+            | v => v) .ok
+    | _, _ => .bad s!"xh header {full}"
+  | _, _ => .bad "xh arity"
+
 def step (st : St) (pre post : List String) : St × Verdict :=
   match pre with
   | ["schema", name, spec] =>
@@ -278,6 +337,7 @@ def step (st : St) (pre post : List String) : St × Verdict :=
       else if toString r != res then (st, .diff s!"IsAfterCodecUpgrade({hh}) with upgrade height {g}: model={r} impl={res}")
       else (st, .ok)
     | _, _, _, _, _ => (st, .bad "isafter")
+  | "xh" :: _ => (st, stepXh st pre post)
   | ["mapstab", name, full, vx] =>
     -- one encoding decoded many times: the value and the sign bytes must not depend on map order
     match post with
